@@ -114,6 +114,7 @@ def Mild (P D : Path → Prop) : Call → Prop
   | .reflink _ _ => False
   | .removeTree _ => False
   | .isLink _ => True
+  | .sameFile _ _ => True
   | .mkTempLink _ _ => False
   | .renameLink _ _ => False
 
@@ -197,6 +198,7 @@ theorem mild_step {P D : Path → Prop} {env : Env} {fs fs' : FS} {c : Call} {r 
   | reflink s d => exact hm.elim
   | removeTree p => exact hm.elim
   | isLink p => exact fun q => Or.inr (Or.inl (step_frame env fs fs' _ r hs q (fun e => e)))
+  | sameFile p t => exact fun q => Or.inr (Or.inl (step_frame env fs fs' _ r hs q (fun e => e)))
   | mkTempLink dir t => exact hm.elim
   | renameLink s d => exact hm.elim
 
